@@ -1,3 +1,145 @@
 import GambitV.Model.Session
+
+/-!
+# C18 — the read-only session never changes the stored data
+
+`ReadOnlySession` (`stepRO`): `flush` is a no-op, `commit` raises.  Over any finite history of
+operations the durable rows are unchanged, nothing is ever flushed into a transaction, and every
+query sees exactly the durable rows.  For contrast the ordinary session (`stepRW`) does change the
+durable rows on an explicit history.  The read-side commands never open a database file for writing.
+Core Lean only.
+-/
 namespace GambitV.C18
+open GambitV
+
+/-! ### Generic facts about `runOps` -/
+
+theorem runOps_nil (step : Sess → SOp → Sess × SOut) (s : Sess) : runOps step s [] = (s, []) := rfl
+
+/-- Running a history from an accumulated output list. -/
+private theorem foldl_acc (step : Sess → SOp → Sess × SOut) (ops : List SOp) (s : Sess) (outs : List SOut) :
+    ops.foldl (fun (acc : Sess × List SOut) op => let r := step acc.1 op; (r.1, acc.2 ++ [r.2])) (s, outs) =
+      ((runOps step s ops).1, outs ++ (runOps step s ops).2) := by
+  unfold runOps
+  induction ops generalizing s outs with
+  | nil => simp
+  | cons op ops ih =>
+    simp only [List.foldl_cons]
+    rw [ih (step s op).1 (outs ++ [(step s op).2]), ih (step s op).1 ([] ++ [(step s op).2])]
+    simp
+
+/-- One step of a history, then the rest. -/
+theorem runOps_cons (step : Sess → SOp → Sess × SOut) (s : Sess) (op : SOp) (ops : List SOp) :
+    runOps step s (op :: ops) =
+      ((runOps step (step s op).1 ops).1, (step s op).2 :: (runOps step (step s op).1 ops).2) := by
+  have := foldl_acc step ops (step s op).1 ([] ++ [(step s op).2])
+  simpa [runOps] using this
+
+/-- 5. One output per operation. -/
+theorem outputs_length (step : Sess → SOp → Sess × SOut) (s : Sess) (ops : List SOp) :
+    (runOps step s ops).2.length = ops.length := by
+  induction ops generalizing s with
+  | nil => rfl
+  | cons op ops ih => rw [runOps_cons]; simp [ih]
+
+/-! ### One step of the read-only session -/
+
+theorem stepRO_durable (s : Sess) (op : SOp) : (stepRO s op).1.durable = s.durable := by
+  cases op <;> rfl
+
+theorem stepRO_txn (s : Sess) (op : SOp) (h : s.txn = []) : (stepRO s op).1.txn = [] := by
+  cases op <;> simp [stepRO, h]
+
+/-- 3a. `commit` raises and changes nothing. -/
+theorem commit_raises (s : Sess) : stepRO s .commit = (s, .raised) := rfl
+
+/-- 3b. `flush` is a no-op: pending changes stay pending. -/
+theorem flush_noop (s : Sess) : stepRO s .flush = (s, .ok) := rfl
+
+/-! ### Histories -/
+
+/-- 1. No finite history of operations on the read-only session changes the stored data. -/
+theorem durable_invariant (ops : List SOp) (s : Sess) : (runOps stepRO s ops).1.durable = s.durable := by
+  induction ops generalizing s with
+  | nil => rfl
+  | cons op ops ih => rw [runOps_cons]; simp only []; rw [ih, stepRO_durable]
+
+/-- 2. Nothing is ever flushed into a transaction. -/
+theorem txn_stays_empty (ops : List SOp) (s : Sess) (h : s.txn = []) : (runOps stepRO s ops).1.txn = [] := by
+  induction ops generalizing s with
+  | nil => exact h
+  | cons op ops ih => rw [runOps_cons]; exact ih _ (stepRO_txn s op h)
+
+/-- 4a. A query sees exactly the durable rows (pending changes are not visible: autoflush is a no-op). -/
+theorem query_sees_durable (s : Sess) (h : s.txn = []) : (stepRO s .query).2 = .rows s.durable.length := by
+  simp [stepRO, h, applyChanges]
+
+/-- One step from an empty-transaction state can only report the durable row count. -/
+theorem stepRO_rows (s : Sess) (op : SOp) (h : s.txn = []) (n : Nat) (hn : (stepRO s op).2 = .rows n) :
+    n = s.durable.length := by
+  cases op <;> simp [stepRO, h, applyChanges] at hn
+  exact hn.symm
+
+/-- 4b. Along any history from a state with an empty transaction, every `.rows n` output has
+`n = s.durable.length`. -/
+theorem history_rows (ops : List SOp) (s : Sess) (h : s.txn = []) :
+    ∀ n, SOut.rows n ∈ (runOps stepRO s ops).2 → n = s.durable.length := by
+  induction ops generalizing s with
+  | nil => intro n hn; simp [runOps_nil] at hn
+  | cons op ops ih =>
+    intro n hn
+    rw [runOps_cons] at hn
+    rcases List.mem_cons.1 hn with e | hn
+    · exact stepRO_rows s op h n e.symm
+    · have := ih _ (stepRO_txn s op h) n hn
+      rwa [stepRO_durable] at this
+
+/-- The pending changes are exactly the `change` operations since the last rollback/close — in
+particular after a history with neither, all changes are still pending (none was applied). -/
+theorem pending_accumulates (ops : List SOp) (s : Sess)
+    (hno : ∀ op ∈ ops, op ≠ .rollback ∧ op ≠ .close) :
+    (runOps stepRO s ops).1.pending =
+      s.pending ++ ops.filterMap (fun op => match op with | .change c => some c | _ => none) := by
+  induction ops generalizing s with
+  | nil => simp [runOps_nil]
+  | cons op ops ih =>
+    rw [runOps_cons]
+    simp only []
+    rw [ih _ (fun o ho => hno o (List.mem_cons_of_mem _ ho))]
+    have := hno op (List.mem_cons_self ..)
+    cases op <;> simp [stepRO] at this ⊢
+
+/-! ### 6. Contrast: the ordinary session does change the stored data -/
+
+/-- On the history `add 7; flush; commit` the ordinary session stores the row; the read-only session
+does not (its `commit` raises). -/
+theorem rw_changes_durable :
+    let s : Sess := { durable := [1, 2], txn := [], pending := [] }
+    let ops : List SOp := [.change (.add 7), .flush, .commit, .query]
+    (runOps stepRW s ops).1.durable = [1, 2, 7] ∧
+    (runOps stepRW s ops).2 = [.ok, .ok, .ok, .rows 3] ∧
+    (runOps stepRO s ops).1.durable = [1, 2] ∧
+    (runOps stepRO s ops).2 = [.ok, .ok, .raised, .rows 2] := by
+  decide
+
+/-! ### 7. File-open modes -/
+
+/-- No read-side command opens either database file for writing. -/
+theorem dbOpens_never_write (c : Cmd) : (dbOpens c).1 ≠ some .write ∧ (dbOpens c).2 ≠ some .write := by
+  cases c <;> decide
+
+/-! ### Non-vacuity -/
+
+-- a history with a delete, a flush, a commit attempt, a query and a close: durable rows untouched,
+-- the query still sees both rows, the pending changes are discarded by `close`.
+example : runOps stepRO { durable := [4, 5], txn := [], pending := [] }
+    [.change (.del 4), .flush, .commit, .query, .close] =
+    ({ durable := [4, 5], txn := [], pending := [] }, [.ok, .ok, .raised, .rows 2, .ok]) := by decide
+
+-- the same history on the ordinary session deletes the row
+example : (runOps stepRW { durable := [4, 5], txn := [], pending := [] }
+    [.change (.del 4), .flush, .commit, .query, .close]).1.durable = [5] := by decide
+
+example : dbOpens .query = (some .read, some .read) := rfl
+
 end GambitV.C18
